@@ -1013,16 +1013,8 @@ impl ContinuityStore {
             (head_seq, last_message)
         };
 
-        let workspace = workspace_key(&self.workspace_root);
-        // See branch(): the seq mutex covers child creation, the lineage frame and the counter.
-        #[cfg(rip_verif)]
-        rip_kernel::verif::point("cont.before_lock");
-        let mut next_seq = self.next_seq.lock().expect("continuity seq mutex");
-        #[cfg(rip_verif)]
-        rip_kernel::verif::point("cont.locked");
-        let thread_id =
-            self.create_continuity_locked(&mut next_seq, workspace, None, title, false)?;
-
+        // The bundle is written before the child exists (and before the seq mutex is taken): a failing
+        // artifact write must not leave a thread that has a creation frame but no lineage record.
         if summary_artifact_id.is_none() {
             if let Some(markdown) = summary_markdown.as_ref() {
                 let bundle = HandoffContextBundleV1::new_source_cut(
@@ -1037,6 +1029,16 @@ impl ContinuityStore {
                 )?);
             }
         }
+
+        let workspace = workspace_key(&self.workspace_root);
+        // See branch(): the seq mutex covers child creation, the lineage frame and the counter.
+        #[cfg(rip_verif)]
+        rip_kernel::verif::point("cont.before_lock");
+        let mut next_seq = self.next_seq.lock().expect("continuity seq mutex");
+        #[cfg(rip_verif)]
+        rip_kernel::verif::point("cont.locked");
+        let thread_id =
+            self.create_continuity_locked(&mut next_seq, workspace, None, title, false)?;
 
         let event = Event {
             id: Uuid::new_v4().to_string(),
